@@ -110,6 +110,18 @@ Definition obs_proto (excl : list (list N)) (td : list (json * list N)) (tl : li
   Tl [Tlist Tevent (b_log s); Tlist Tcall (a_calls s); Tbool (bad s);
       Tnat (length (a_buf s)); Tnat (length (b_buf s))].
 
+Definition obs_state (s : st) : T :=
+  Tl [Tlist Tevent (b_log s); Tlist Tcall (a_calls s); Tbool (bad s);
+      Tnat (length (a_buf s)); Tnat (length (b_buf s))].
+
+(* several connections on one called side: the hub model (code after the fix: legacy = false), one
+   observable per connection *)
+Definition obs_hub (excl : list (list N)) (td : list (json * list N)) (tl : list (list N * option json))
+  (D : list N) (echo nil gen boom late : list (list N)) (bchans : list json) (sched : list (nat * op)) : T :=
+  let h := hrun excl (tbl_dumps td) (tbl_loads tl) D (fun _ => true) (fun _ => true)
+                (handler_of echo nil gen boom late) (fun c => nth c bchans JNull) (length bchans) false sched in
+  Tl (map (fun c => obs_state (h c)) (seq 0 (length bchans))).
+
 (* utils.load_event on a JSON text whose parse is [j] *)
 Definition obs_load (excl : list (list N)) (j : json) : T :=
   match load_event excl j with
